@@ -57,7 +57,7 @@ def generate_component(component: dict[str, Any]) -> Component:
 def undictify_circuit(circuit: dict) -> Circuit:
     return Circuit([generate_component(entry) for entry in circuit['components']])
 
-deserialize = functools.partial(dump_load.deserialize, dict_preprocessor=undictify_circuit)
+deserialize = functools.partial(dump_load.deserialize, dict_preprocessor=lambda data: undictify_circuit(dump_load.undictify_all_complex_values(data)))
 load = functools.partial(dump_load.load, deserialize_fcn=deserialize)
 
 def dictify_circuit(circuit: Circuit) -> dict:
